@@ -41,6 +41,9 @@ def obligations(tier, seed=0):
             add('mag', kind='mpc', rbc=2, ibc=big, off=big + gap - 2 - 2 * (big + gap - 2) + (big - 2) - gap + 0 if False else -(gap + big - 2), ctxprec=cp)
     for bc, e in [(1, -1), (1, -3), (1, 0), (3, -1), (3, -2), (3, -3), (3, -4), (5, -2), (5, -5), (5, -6), (5, -7), (5, 3), (8, -1), (12, -4), (9, -12)]:
         add('nint_distance', bc=bc, exp=e)
+    # exact rationals (mpq) and Python ints
+    for pbc, qbc in [(5, 3), (3, 5), (7, 6), (1, 4), (6, 1), (4, 4)]:
+        add('nint_distance_q', pbc=pbc, qbc=qbc)
     kinds = ['pos', 'neg', 'zero', 'inf', 'ninf', 'nan']
     from checks.fam_misc import CLASS_FUNCS
     for fn in CLASS_FUNCS:
